@@ -14,10 +14,18 @@ import (
 
 type vC09Param struct {
 	name string
-	text bool // Text instead of Zahl
+	typ  string // "zahl" (default), "text", "meter" (a definition over Zahl), "zliste" (Zahlen Liste), "T", "TListe"
 	ref  bool
-	gen  bool
 }
+
+func (p vC09Param) kind() string {
+	if p.typ == "" {
+		return "zahl"
+	}
+	return p.typ
+}
+
+func (p vC09Param) generic() bool { return p.typ == "T" || p.typ == "TListe" }
 
 type vC09Decl struct {
 	name   string
@@ -28,23 +36,34 @@ type vC09Decl struct {
 var vC09Decls = []vC09Decl{
 	{"fA", false, []vC09Param{{name: "a"}}},
 	{"fB", false, []vC09Param{{name: "a", ref: true}}},
-	{"fD", false, []vC09Param{{name: "a", text: true}}},
+	{"fD", false, []vC09Param{{name: "a", typ: "text"}}},
 	{"fC", true, []vC09Param{{name: "a"}, {name: "b"}}},
-	{"fE", true, []vC09Param{{name: "a", ref: true}, {name: "b", text: true}}},
-	{"fG", false, []vC09Param{{name: "a", gen: true}}},
+	{"fE", true, []vC09Param{{name: "a", ref: true}, {name: "b", typ: "text"}}},
+	{"fG", false, []vC09Param{{name: "a", typ: "T"}}},
 	// placeholders in the opposite order of the parameter list: binding is by name
-	{"fF", true, []vC09Param{{name: "b", text: true}, {name: "a"}}},
+	{"fF", true, []vC09Param{{name: "b", typ: "text"}, {name: "a"}}},
+	// a type definition over Zahl is another type than Zahl
+	{"fM", false, []vC09Param{{name: "a", typ: "meter"}}},
+	// a list of the type parameter is generic, a Zahlen Liste is not
+	{"fL", false, []vC09Param{{name: "a", typ: "TListe"}}},
+	{"fZ", false, []vC09Param{{name: "a", typ: "zliste"}}},
 }
 
 func (d vC09Decl) source(id int) string {
 	var sb strings.Builder
 	typ := func(p vC09Param) string {
 		switch {
-		case p.gen:
+		case p.kind() == "T":
 			return "T"
-		case p.text && p.ref:
+		case p.kind() == "TListe":
+			return "T Liste"
+		case p.kind() == "zliste":
+			return "Zahlen Liste"
+		case p.kind() == "meter":
+			return "Meter"
+		case p.kind() == "text" && p.ref:
 			return "Text Referenz"
-		case p.text:
+		case p.kind() == "text":
 			return "Text"
 		case p.ref:
 			return "Zahlen Referenz"
@@ -57,7 +76,7 @@ func (d vC09Decl) source(id int) string {
 		ps[0], ps[1] = ps[1], ps[0]
 	}
 	kind := "Funktion"
-	if d.params[0].gen {
+	if d.params[0].generic() {
 		kind = "generische Funktion"
 	}
 	if len(ps) == 1 {
@@ -76,17 +95,19 @@ func (d vC09Decl) source(id int) string {
 
 type vC09Form struct {
 	src        string
-	text       bool
+	typ        string
 	assignable bool
 }
 
 var vC09Forms = []vC09Form{
-	{"1", false, false},
-	{"z", false, true},
-	{"\"s\"", true, false},
-	{"t", true, true},
-	{"(z plus 1)", false, false},
-	{"-1", false, false},
+	{"1", "zahl", false},
+	{"z", "zahl", true},
+	{"\"s\"", "text", false},
+	{"t", "text", true},
+	{"(z plus 1)", "zahl", false},
+	{"-1", "zahl", false},
+	{"m", "meter", true},
+	{"zl", "zliste", true},
 }
 
 func (d vC09Decl) fits(args []vC09Form) bool {
@@ -98,40 +119,38 @@ func (d vC09Decl) fits(args []vC09Form) bool {
 		if p.ref && !a.assignable {
 			return false
 		}
-		if !p.gen && p.text != a.text {
-			return false
+		switch p.kind() {
+		case "T":
+		case "TListe":
+			if a.typ != "zliste" {
+				return false
+			}
+		default:
+			if p.kind() != a.typ {
+				return false
+			}
 		}
 	}
 	return true
 }
 
-// priority of a declaration among the candidates: longer first, then non-generic, then more
-// Referenz parameters, then definition order
-func (d vC09Decl) before(o vC09Decl, di, oi int) bool {
-	if d.long != o.long {
-		return d.long
+// key of a declaration among the candidates, as the property orders them: longer first, then
+// non-generic before generic, then more Referenz parameters (anything further is left open)
+func (d vC09Decl) key() int {
+	k := 0
+	if d.long {
+		k += 100
 	}
-	gen := func(x vC09Decl) int {
-		n := 0
-		for _, p := range x.params {
-			n += rt.B2I(p.gen)
-		}
-		return n
+	generic := false
+	refs := 0
+	for _, p := range d.params {
+		generic = generic || p.generic()
+		refs += rt.B2I(p.ref)
 	}
-	refs := func(x vC09Decl) int {
-		n := 0
-		for _, p := range x.params {
-			n += rt.B2I(p.ref)
-		}
-		return n
+	if !generic {
+		k += 10
 	}
-	if gen(d) != gen(o) {
-		return gen(d) < gen(o)
-	}
-	if refs(d) != refs(o) {
-		return refs(d) > refs(o)
-	}
-	return di < oi
+	return k + refs
 }
 
 func vC09FindCall(e ast.Expression) *ast.FuncCall {
@@ -154,6 +173,7 @@ func vC09FindCall(e ast.Expression) *ast.FuncCall {
 func vC09CallSites(maxDecls int) {
 	var present []int
 	var sb strings.Builder
+	sb.WriteString("Wir definieren einen Meter als eine Zahl.\n\n")
 	for i, d := range vC09Decls {
 		if rt.Bool("declared") {
 			present = append(present, i)
@@ -161,7 +181,7 @@ func vC09CallSites(maxDecls int) {
 		}
 	}
 	rt.Assume(len(present) >= 1 && len(present) <= maxDecls)
-	sb.WriteString("Die Zahl z ist 1.\nDer Text t ist \"x\".\n")
+	sb.WriteString("Die Zahl z ist 1.\nDer Text t ist \"x\".\nDer Meter m ist 2 als Meter.\nDie Zahlen Liste zl ist eine Liste, die aus 1, 2 besteht.\n")
 	declLines := strings.Count(sb.String(), "\n")
 	x := vC09Forms[rt.Choose("first", len(vC09Forms))]
 	args := []vC09Form{x}
@@ -191,22 +211,30 @@ func vC09CallSites(maxDecls int) {
 	}
 	// the rule: of the declared aliases that fit the tokens and the argument types, the first by priority;
 	// with two arguments a short alias can only take the first one
-	want := -1
+	best := -1
 	for _, i := range present {
 		d := vC09Decls[i]
 		a := args
 		if !d.long {
 			a = args[:1]
 		}
-		if !d.fits(a) {
-			continue
-		}
-		if want == -1 || d.before(vC09Decls[want], i, want) {
-			want = i
+		if d.fits(a) && d.key() > best {
+			best = d.key()
 		}
 	}
-	if want == -1 {
+	if best == -1 {
 		return // no declaration fits: a diagnostic is due (C04), nothing to resolve
+	}
+	wanted := map[string]int{}
+	for _, i := range present {
+		d := vC09Decls[i]
+		a := args
+		if !d.long {
+			a = args[:1]
+		}
+		if d.fits(a) && d.key() == best {
+			wanted[d.name] = i
+		}
 	}
 	var initVal ast.Expression
 	for _, st := range mod.Ast.Statements {
@@ -221,8 +249,9 @@ func vC09CallSites(maxDecls int) {
 	if callExpr == nil {
 		return
 	}
-	rt.Assert(callExpr.Name == vC09Decls[want].name, "the longest alias whose parameter types fit is called (non-generic before generic, more Referenz parameters first)")
-	if callExpr.Name != vC09Decls[want].name {
+	want, ok := wanted[callExpr.Name]
+	rt.Assert(ok, "the longest alias whose parameter types fit is called (non-generic before generic, more Referenz parameters first)")
+	if !ok {
 		return
 	}
 	d := vC09Decls[want]
